@@ -78,7 +78,7 @@ def gen_params(rng, tier):
             if k == "add":
                 hist.append(["add", nh, a, b])
             elif k == "mul":
-                hist.append(["mul", nh, a, rng.choice([2.0, 0.5, 3.0, 0.0, 1.0])])
+                hist.append(["mul", nh, a, rng.choice([2.0, 0.5, 3.0, 0.0, 1.0, -1.0, -0.5, float("nan")])])
             else:
                 hist.append([k, nh, a])
             if nh not in handles:
